@@ -855,7 +855,8 @@ func ruleNoNarrowing(c *Ctx, rule string) {
 		ast.Inspect(fd.Body, func(nd ast.Node) bool {
 			if as, ok := nd.(*ast.AssignStmt); ok && len(as.Lhs) == 2 && len(as.Rhs) == 1 {
 				if call, ok := unparen(as.Rhs[0]).(*ast.CallExpr); ok {
-					if fn := calleeOf(info, call); fn != nil && fn.Pkg() != nil && fn.Pkg().Path() == "go/constant" && (fn.Name() == "Int64Val" || fn.Name() == "Uint64Val") {
+					if fn := calleeOf(info, call); fn != nil && fn.Pkg() != nil && ((fn.Pkg().Path() == "go/constant" && (fn.Name() == "Int64Val" || fn.Name() == "Uint64Val")) ||
+						(fn.Pkg() == pk.Types && (fn.Name() == "Int64" || fn.Name() == "Uint64") && fn.Type().(*types.Signature).Results().Len() == 2)) {
 						if id := identOf(as.Lhs[0]); id != nil {
 							o := info.Defs[id]
 							if o == nil {
@@ -892,9 +893,15 @@ func ruleNoNarrowing(c *Ctx, rule string) {
 			if !ok || b.Info()&types.IsInteger == 0 {
 				return true
 			}
+			signChange := false
 			switch b.Kind() {
 			case types.Int64, types.Uint64:
-				return true
+				sb, _ := info.TypeOf(id).Underlying().(*types.Basic)
+				if sb == nil || (sb.Info()&types.IsUnsigned != 0) == (b.Info()&types.IsUnsigned != 0) {
+					return true
+				}
+				// int64 <-> uint64: same width, half of the range changes its meaning
+				signChange = true
 			}
 			// narrowing: must be range-guarded
 			o := info.Uses[id]
@@ -922,6 +929,9 @@ func ruleNoNarrowing(c *Ctx, rule string) {
 				}
 			}
 			okN := lower && upper
+			if signChange {
+				okN = lower || upper
+			}
 			if !okN {
 				bad++
 			}
